@@ -29,6 +29,7 @@ pub struct Sa {}
 #[unit(Sb_Odd, "ob", 0.02)]
 #[unit(Sb_Mega, "Mb", MEGA, 1000.)]
 #[unit(Sb_Big, "Bb", 50000)]
+#[unit(Sb_Odd_Giga, "Gob", GIGA, 5000000, "a prefix that does NOT match the scale (a million-fold of kilo would be 1000000)")]
 pub struct Sb {}
 
 // two units only
